@@ -91,6 +91,12 @@ def classify(cfg, x):
     if math.isnan(x):
         return "nan", 0
     k = cfg["kind"]
+    if math.isinf(x) and k != "Bin":
+        if k == "SparselyBin":
+            return "sat", 0
+        if k == "CentrallyBin":
+            return "in", (len(cfg["centers"]) - 1 if x > 0 else 0)
+        return "in", (len(cfg.get("edges") or cfg.get("thresholds")) if x > 0 else 0)
     if k == "Bin":
         if x < cfg["low"]:
             return "under", 0
@@ -99,7 +105,11 @@ def classify(cfg, x):
         lo, hi = F(cfg["low"]), F(cfg["high"])
         return "in", math.floor(cfg["n"] * (F(x) - lo) / (hi - lo))
     if k == "SparselyBin":
-        return "in", math.floor((F(x) - F(cfg["origin"])) / F(cfg["width"]))
+        if math.isinf(x):
+            return "sat", 0
+        r = math.floor((F(x) - F(cfg["origin"])) / F(cfg["width"]))
+        # an index beyond the 64-bit range saturates: the value still goes to exactly one (the first / last) bin
+        return ("sat", 0) if abs(r) >= 2 ** 62 else ("in", r)
     if k == "CentrallyBin":
         cs = [F(c) for c in cfg["centers"]]
         for i in range(len(cs) - 1):
@@ -137,6 +147,9 @@ def probes(rng, cfg, maxn=24):
     rng.shuffle(out)
     out = out[:maxn]
     out.append((float("nan"), False))
+    # magnitudes at the end of the float range (their quotient by a small bin width overflows) and the infinities
+    for x in (1e308, -1e308, sys.float_info.max, float("inf"), float("-inf")):
+        out.append((x, False))
     return out
 
 
@@ -178,12 +191,16 @@ def record_one(job):
     ps = probes(rng, cfg)
     events = []
     filled = []
+    huge = False      # a sparse histogram that holds a saturated index is not asked for views (2^64 entries)
     for step in range(job.get("nfill", 14)):
         xid = rng.randrange(len(ps))
         x, near = ps[xid]
         cls, r = classify(cfg, x)
         w = rng.choice([1.0, 1.0, 2.0, 0.5])
         vec = rng.random() < 0.35     # the same probe through the vectorised path (a one-row batch)
+        if abs(x) > 1e300:
+            vec = False                 # (the extreme magnitudes row-wise only)
+            huge = True
         ev = {"op": "EFill", "xid": xid + 1, "cls": cls, "r": int(r), "near": bool(near), "w": list(pnum(w)),
               "x": repr(x), "vec": bool(vec), "out": "ok", "exc": ""}
         try:
@@ -199,6 +216,8 @@ def record_one(job):
         events.append(ev)
         if cls == "in":
             filled.append(xid)
+        if huge and cfg["kind"] == "SparselyBin":
+            continue
         if cfg["kind"] != "Stack" and rng.random() < 0.5 and filled:
             xi = rng.choice(filled)
             ev = {"op": "EXEnt", "xid": xi + 1, "x": repr(ps[xi][0]), "out": "ok", "exc": "", "res": [0, 1]}
@@ -218,7 +237,7 @@ def view_event(rng, h, cfg, ps):
     k = cfg["kind"]
     full = rng.random() < 0.4
     lo = hi = None
-    fin = sorted(x for x, _ in ps if not math.isnan(x))
+    fin = sorted(x for x, _ in ps if not math.isnan(x) and abs(x) < 1e300)     # (query bounds: not the extreme probes)
     if not full:
         a, b = sorted(rng.sample(fin, 2))
         if a == b:
